@@ -90,7 +90,9 @@ func c05Case(c *core.Ctx, r *core.Rand, idx int) error {
 	sys := newC05Sys(idx)
 	var items []c05item
 	var hist []string
-	caseID := func() string { return fmt.Sprintf("c05.history %s seed-fork#%d: %s", sys.name, idx, strings.Join(hist, " ; ")) }
+	caseID := func() string {
+		return fmt.Sprintf("c05.history %s seed-fork#%d: %s", sys.name, idx, strings.Join(hist, " ; "))
+	}
 	fail := func(sig, impl, want, detail string) {
 		c.Fail(sig, core.Replay{Kind: "oracle", Case: caseID(), Impl: impl, Expected: want, Detail: detail})
 	}
